@@ -13,7 +13,7 @@ from ..core import register_machine, Violation
 from ..seams import CTX, HarnessError
 from ..util import cjson, h64, exc_class
 from .. import pools
-from .base import FormatMachine, Slot, VALID, INVALID, UNSPEC, first_diff, diff_key
+from .base import FormatMachine, Slot, VALID, INVALID, UNSPEC, first_diff, diff_key, dec
 
 REL_FIELDS = ["name", "short", "version", "type", "is_layered", "internal"]
 BP_FIELDS = ["name", "short", "version", "type"]
@@ -325,7 +325,7 @@ class CIMachine(FormatMachine):
         s = self.slot(op)
         if s is None:
             return "noop"
-        sec, f, v = op["sec"], op["field"], op["value"]
+        sec, f, v = op["sec"], op["field"], dec(op["value"])
         setattr(getattr(s.obj, sec), f, v)
         s.model[sec][f] = v
         return "ok"
@@ -360,7 +360,7 @@ class CIMachine(FormatMachine):
         vid = str(op.get("var"))
         if s is None or vid not in s.pool:
             return "noop"
-        f, val = op["field"], op["value"]
+        f, val = op["field"], dec(op["value"])
         v = s.pool[vid]
         mv = s.model["vars"][vid]
         if f == "arches":
@@ -559,6 +559,13 @@ class CIMachine(FormatMachine):
                     raise Violation("C11", "C11.uids_unique", "duplicate-uid-in-forest", {"uid": v.uid})
                 seen[v.uid] = v
                 if parent_obj is None:
+                    # "...and from its parent by its id": for a top-level variant the parent is the top container
+                    try:
+                        got = obj[v.id]
+                    except Exception as e:
+                        raise Violation("C11", "C11.find_by_id_from_parent", "toplevel-lookup-by-id-raises/%s" % exc_class(e), {"uid": v.uid, "id": v.id})
+                    if got is not v:
+                        raise Violation("C11", "C11.find_by_id_from_parent", "toplevel-lookup-by-id-wrong-object", {"uid": v.uid, "id": v.id})
                     if v.parent is not None:
                         raise Violation("C11", "C11.parent_pointer", "top-level-has-parent", {"uid": v.uid})
                     if v.uid.replace("-", "") != v.id:
@@ -781,9 +788,17 @@ class CIMachine(FormatMachine):
             m["base_product"] = dict((f, None) for f in BP_FIELDS)
         m["compose"] = dict(expected["compose"])
         keep = set(d["aux"].values())
+        self._loose = {}
         for vid in list(m["vars"]):
             if vid not in keep:
+                # a variant object the caller still holds but that is not part of the durable forest: it is re-created
+                # (same attributes, children dropped) against the restarted object, so the history can go on using it
+                cur = s.model["vars"].get(vid) if s is not None and s.model else None
+                if cur is not None and cur["parent"] is None and not cur["tainted"] and not cur["children"]:
+                    self._loose[vid] = copy.deepcopy(cur)
                 del m["vars"][vid]
+        for vid, cur in self._loose.items():
+            m["vars"][vid] = cur
         for uid, vid in d["aux"].items():
             e = expected["forest"][uid]
             mv = m["vars"][vid]
@@ -836,6 +851,22 @@ class CIMachine(FormatMachine):
         s.pool = {}
         if s.tainted:
             return
+        for vid, cur in getattr(self, "_loose", {}).items():
+            if d.get("aux") is None:
+                break
+            try:
+                v = self.mods().Variant(s.obj)
+                v.id, v.uid, v.name, v.type = cur["id"], cur["uid"], cur["name"], cur["type"]
+                from ..seams import make_set
+                v.arches = make_set(cur["arches"]) if isinstance(cur["arches"], list) else cur["arches"]
+                for f, val in (cur.get("release") or {}).items():
+                    setattr(v.release, f, val)
+                for cat, table in cur["paths"].items():
+                    getattr(v.paths, cat).update(table)
+                s.pool[vid] = v
+            except Exception:
+                s.model["vars"].pop(vid, None)
+        self._loose = {}
         for uid, vid in aux.items():
             try:
                 s.pool[vid] = s.obj[uid]
